@@ -81,6 +81,33 @@ fn root_variant_unguarded(net: NetID, fee_mult: u128, with_wallet: bool, variant
         universe.push(faucet_marker(f.hash_nosigs()));
         block_txs.push(f);
     }
+    if with_wallet && net == NetID::Mainnet && variant == 0 && fee_mult == 0 {
+        // mainnet has no faucet: the wallet is carved out of the genesis coin in block 0, its SYM and ERG bought from the
+        // built-in pools by four swap requests settled when block 0 is sealed
+        let split = tx_t(
+            TxKind::Normal,
+            vec![CoinID::zero_zero()],
+            vec![
+                out_t(100_000, Denom::Mel), out_t(100_001, Denom::Mel), out_t(100_002, Denom::Mel),
+                out_t(3_000_000, Denom::Mel), out_t(3_000_001, Denom::Mel), out_t(4_000_000, Denom::Mel), out_t(4_000_001, Denom::Mel),
+                out_t(1_000_000_000 - 300_003 - 6_000_001 - 8_000_001, Denom::Mel),
+            ],
+            0,
+            b"setup".to_vec(),
+        );
+        u.apply_tx(&split).expect("set-up split");
+        for i in 0..3 {
+            universe.push(split.output_coinid(i));
+        }
+        universe.push(split.output_coinid(7));
+        block_txs.push(split.clone());
+        for (i, pool) in [(3u8, PoolKey::new(Denom::Mel, Denom::Sym)), (4, PoolKey::new(Denom::Mel, Denom::Sym)), (5, PoolKey::new(Denom::Mel, Denom::Erg)), (6, PoolKey::new(Denom::Mel, Denom::Erg))] {
+            let sw = tx_t(TxKind::Swap, vec![split.output_coinid(i)], vec![out_t(split.outputs[i as usize].value.0, Denom::Mel)], 0, pool.to_bytes().to_vec());
+            u.apply_tx(&sw).expect("set-up swap");
+            universe.push(sw.output_coinid(0));
+            block_txs.push(sw);
+        }
+    }
     let s = u.seal(None);
     let model = model_of(&s, &universe, &builtin_pool_keys(), &block_txs);
     let h0 = s.header();
@@ -240,11 +267,11 @@ pub fn boundary_scenarios(cfg: &AlphaCfg, depth: usize, thorough: bool) -> Vec<S
     // mainnet: TIP-902 (180000: ERG/SYM pool, peg formula), TIP-909 (950000: subsidy), TIP-909a (1048000), first halving (1950000)
     // mainnet has no faucet: the wallet's second denomination is a token minted in block 1
     let minted = vec!["open", "mint(", "seal(None)"];
-    let mut m = sc("mainnet-tip902-180000", NetID::Mainnet, 0, cfg.clone(), depth + 2);
+    let mut m = sc("mainnet-tip902-180000", NetID::Mainnet, 0, cfg.clone(), depth);
     m.setup_labels = minted.clone();
     m.pre = vec![Action::Jump(179_998)];
     v.push(m);
-    let mut m = sc("mainnet-tip909-950000", NetID::Mainnet, 0, cfg.clone(), depth + 2);
+    let mut m = sc("mainnet-tip909-950000", NetID::Mainnet, 0, cfg.clone(), depth);
     m.setup_labels = minted.clone();
     m.pre = cross(829_998);
     m.pre.push(Action::Jump(949_998));
@@ -253,23 +280,23 @@ pub fn boundary_scenarios(cfg: &AlphaCfg, depth: usize, thorough: bool) -> Vec<S
     let mut f = sc("custom02-subsidy-runs-out-21950000", NetID::Custom02, 0, cfg.clone(), depth.min(5));
     f.pre = vec![Action::Jump(21_949_998)];
     v.push(f);
-    let mut m = sc("mainnet-deposit-rule-978392", NetID::Mainnet, 0, cfg.clone(), depth + 2);
+    let mut m = sc("mainnet-deposit-rule-978392", NetID::Mainnet, 0, cfg.clone(), depth);
     m.setup_labels = minted.clone();
     m.pre = cross(829_998);
     m.pre.push(Action::Jump(978_390));
     v.push(m);
     if thorough {
-        let mut m = sc("mainnet-tip909a-1048000", NetID::Mainnet, 0, cfg.clone(), depth + 2);
+        let mut m = sc("mainnet-tip909a-1048000", NetID::Mainnet, 0, cfg.clone(), depth);
         m.setup_labels = minted.clone();
         m.pre = cross(829_998);
         m.pre.push(Action::Jump(1_047_998));
         v.push(m);
-        let mut m = sc("mainnet-halving-1950000", NetID::Mainnet, 0, cfg.clone(), depth + 2);
+        let mut m = sc("mainnet-halving-1950000", NetID::Mainnet, 0, cfg.clone(), depth);
         m.setup_labels = minted.clone();
         m.pre = cross(829_998);
         m.pre.push(Action::Jump(1_949_998));
         v.push(m);
-        let mut m = sc("mainnet-tip901-42700", NetID::Mainnet, 0, cfg.clone(), depth + 2);
+        let mut m = sc("mainnet-tip901-42700", NetID::Mainnet, 0, cfg.clone(), depth);
         m.setup_labels = minted.clone();
         m.pre = vec![Action::Jump(42_698)];
         v.push(m);
